@@ -99,6 +99,8 @@ def run_shard(shard):
             stdin_family(st)
         if li == 3:
             mergeat_family(st)
+        if 5 <= li < 5 + len(RULE_SETS):
+            rules_family(st, RULE_SETS[li - 5])
         if li == 4:
             repeat_family(st)
     finally:
@@ -331,14 +333,54 @@ def _fresh(i):
     return None if POOL[i] is None else corpus.load(corpus.render(POOL[i]))
 
 
-def mergeat_case(st, cfg, mergeat, lidx, ridx, mode, pol):
+RULE_POOL = [
+    ("m", (("k", ("l", (1,))),)),
+    ("m", (("k", ("l", (1, 2))), ("p", 1))),
+    ("m", (("k", ("l", (2,))), ("t", ("l", (1,))))),
+    ("m", (("t", ("l", (1, 3))),)),
+    None,
+]
+RULE_SETS = [{"rules": {"/k": "unique"}}, {"rules": {"/k": "left", "/t": "unique"}},
+             {"rules": {"/t": "right"}}]
+
+
+def rules_family(st, rs):
+    """The modes under a configuration with per-path rules: every pairwise
+    step of a run - the second merge of an equal right-hand document into
+    the next left-hand document too - obeys the rules (judged by the fold of
+    single pairwise merges, each under a configuration of its own)."""
+    idxs = range(len(RULE_POOL))
+    streams = [(i,) for i in idxs] + list(itertools.product(idxs, repeat=2))
+    pol = POLS[0]
+    for lidx in streams:
+        for ridx in streams:
+            for mode in MODES:
+                mergeat_case(st, None, None, lidx, ridx, mode, pol,
+                             ruleset=rs)
+
+
+def mergeat_case(st, cfg, mergeat, lidx, ridx, mode, pol, ruleset=None):
     st.evaluations += 1
-    case = {"lhs_stream": render_stream(lidx), "rhs_stream":
-            render_stream(ridx), "mode": mode, "policies": pol,
+    pool = POOL if ruleset is None else RULE_POOL
+
+    def _fresh(i):
+        return None if pool[i] is None else corpus.load(corpus.render(pool[i]))
+
+    def _stream(idxs):
+        return "".join("---\n%s\n" % render_doc(pool[i]) for i in idxs)
+
+    def mkcfg():
+        return mergerun.make_config(pol, mergeat=mergeat, **(ruleset or {}))
+    cfg = mkcfg()
+    case = {"lhs_stream": _stream(lidx), "rhs_stream": _stream(ridx),
+            "mode": mode, "policies": pol,
             "mergeat": mergeat, "lidx": list(lidx), "ridx": list(ridx)}
+    if ruleset is not None:
+        case["ruleset"] = ruleset
+    fam = "mergeat" if ruleset is None else "rules"
 
     def step(acc, i):
-        res, data = mergerun.merge(acc, _fresh(i), cfg)
+        res, data = mergerun.merge(acc, _fresh(i), mkcfg())
         if res != "ok":
             raise Impossible(data)
         return data
@@ -367,9 +409,9 @@ def mergeat_case(st, cfg, mergeat, lidx, ridx, mode, pol):
     lpath = os.path.join(scratch(), "lhs.yaml")
     rpath = os.path.join(scratch(), "rhs.yaml")
     with open(lpath, "w", encoding="utf-8") as fh:
-        fh.write(render_stream(lidx))
+        fh.write(_stream(lidx))
     with open(rpath, "w", encoding="utf-8") as fh:
-        fh.write(render_stream(ridx))
+        fh.write(_stream(ridx))
     from yamlpath.common import Parsers
     editor = Parsers.get_yaml_editor()
     Merger.depwarn_printed = False
@@ -380,32 +422,32 @@ def mergeat_case(st, cfg, mergeat, lidx, ridx, mode, pol):
             state = yaml_merge.merge_docs(corpus.LOG, editor, cfg, lhs_docs,
                                           rpath)
     except (Exception, core.Hang) as ex:  # pylint: disable=broad-except
-        st.fail("mergeat|crash|%s|%s" % (mode, type(ex).__name__), case,
+        st.fail("%s|crash|%s|%s" % (fam, mode, type(ex).__name__), case,
                 "a return state", repr(ex)[:200])
         return
     st.transitions += 1
     st.validated += 1
     st.states += 1
-    st.sig("mergeat", mergeat, tuple(lidx), tuple(ridx), mode, want is None)
+    st.sig(fam, repr(ruleset), mergeat, tuple(lidx), tuple(ridx), mode, want is None)
     if want is None:
-        st.outcomes["mergeat:refused"] += 1
+        st.outcomes[fam + ":refused"] += 1
         if state == 0:
-            st.fail("mergeat|%s|no-failure-status" % mode, case,
+            st.fail("%s|%s|no-failure-status" % (fam, mode), case,
                     "a non-zero return state", "0")
         return
-    st.outcomes["mergeat:merged"] += 1
+    st.outcomes[fam + ":merged"] += 1
     if state != 0:
-        st.fail("mergeat|%s|spurious-failure-status" % mode, case, "0",
+        st.fail("%s|%s|spurious-failure-status" % (fam, mode), case, "0",
                 str(state))
         return
     got = [corpus.canon(m.data) for m in lhs_docs]
     if len(got) != len(want):
-        st.fail("mergeat|%s|document-count" % mode, case,
+        st.fail("%s|%s|document-count" % (fam, mode), case,
                 "%d documents" % len(want), "%d documents" % len(got))
         return
     for i, (g, w) in enumerate(zip(got, want)):
         if w is not None and g != w:
-            st.fail("mergeat|%s|document-content" % mode, case,
+            st.fail("%s|%s|document-content" % (fam, mode), case,
                     "document %d = %r" % (i, w), repr(g)[:300])
             return
 
@@ -661,6 +703,12 @@ def replay(case):
             for f in lst:
                 if f["case"] == case:
                     return f
+        return None
+    if case.get("ruleset"):
+        mergeat_case(st, None, None, tuple(case["lidx"]), tuple(case["ridx"]),
+                     case["mode"], case["policies"], ruleset=case["ruleset"])
+        for lst in st.fails.values():
+            return lst[0]
         return None
     if case.get("mergeat"):
         try:
